@@ -18,13 +18,23 @@ P = {
                   'Ethereum-route and wrapped submissions no carried message -- executed before, not yet executed, future or used nonce -- is executed '
                   'by a wrapped submission, which is rejected without effect, everything that executes was submitted on the Ethereum route at the '
                   'account\'s current sequence, wrapped submissions are inert (deleting them changes nothing), and every (account, nonce) still executes '
-                  'at most once; (3) *_partial: under explicit premises ECDSA '
+                  'at most once; (2d) contract creations inside multi-message Ethereum transactions: the execution phase is part of the model (after the '
+                  'ante loops advanced the sequence by k, a successful creation with nonce m writes max(sequence, m + 1), as x/evm ApplyMessageWithConfig '
+                  'does since commit f9ff121): it is a no-op whatever the flags, sequence = n + k after every accepted transaction, at most once over all '
+                  'histories; the rule of the code before that commit (m + 1) is REFUTED by the witness [tx [create n; call n+1]; tx [call n+1]] (the call '
+                  'executes twice, the sequence ends at n + 1); (2e) events: histories that mix submissions, wrapped submissions, transactions with '
+                  'creations and account-type operations (conversion into a vesting account by a third party, merge, conversion back -- a transaction of '
+                  'its own signers that leaves its target\'s sequence alone): sequences never decrease, at most once, a message executed once is never '
+                  'executed again whatever lies between; (3) *_partial: under explicit premises ECDSA '
                   'unforgeability and Keccak collision resistance, a transaction executes on behalf of an account only if that account\'s key holder '
                   'signed exactly its content, chain id and current sequence -- hence single-field mutations and foreign-chain signatures do not. '
                   'The machine is compared on every run with the real ante handler (all routes, every single-field mutation, chain-id variants, '
                   'replays), with real DeliverTx block histories, and with multi-message Ethereum transactions (built with /repo\'s testutil/tx.PrepareEthTx) '
                   'through the real ante handler and real DeliverTx, executions counted on the recipients\' balances, and with histories in which already '
-                  'executed / fresh / future / used-nonce signed messages are carried by every kind of wrapper through the real ante handler and real DeliverTx',
+                  'executed / fresh / future / used-nonce signed messages are carried by every kind of wrapper through the real ante handler and real DeliverTx, '
+                  'with batches that contain contract creations (deploying, failing, storing init code) and the re-delivery of all their messages alone and '
+                  'in sub-batches, and with account-type operations (x/vesting MsgConvertIntoVestingAccount / merge / MsgConvertVestingAccount) followed by '
+                  'the re-delivery of old signed bytes of all routes',
     'level_note': 'partial: ECDSA (secp256k1 sign/recover/verify) and Keccak-256 are NOT modelled -- they enter the theorems as arbitrary functions '
                   'and the negative direction carries unforgeability / collision resistance as named premises; the correspondence run uses the real '
                   'ones and feeds the model what they answered (recovered sender; which sign doc a signature was made over). Cosmos / EIP-712 routes '
@@ -40,7 +50,7 @@ P = {
                   'From HV Require Import TxCodec.EthTxModel Ante.SigModel.\nImport ListNotations.\nLocal Open Scope string_scope.',
     'lists': {'cases': {'type': 'list hist', 'check': 'mismatches_groups', 'shard': 40}},
     'search': {'rounds': 3, 'n': 600},
-    'rule': 'seven cases in twelve: one signed transaction of one route (eth legacy / access-list / dynamic-fee, cosmos direct / amino, EIP-712 via '
+    'rule': 'six cases in twelve: one signed transaction of one route (eth legacy / access-list / dynamic-fee, cosmos direct / amino, EIP-712 via '
             'Web3 extension / via the ethsecp256k1 key) on a real app through the real ante handler: every single-field mutation on its own branch of '
             'the state (eth: nonce, prices, gas, to, value, data, access list, chain id field or V, V/R/S tweaks, s-malleation, type change, ten '
             'envelope fields; cosmos: message, memo, fee, gas, timeout, signer-info sequence and key, signature bytes, extension fields), the same '
@@ -64,7 +74,18 @@ P = {
             'signature), or unsigned behind the Ethereum extension option 8%; all through the real ante handler and real DeliverTx. Oracle for a '
             'carrier: no carried message that was executed before, or whose nonce is not its signer\'s sequence at submission, is executed (private '
             'recipient\'s balance), none twice, nobody but the carrier\'s own signer pays or loses a sequence number, a carrier the ante handler '
-            'refuses has no effect. Non-trivial = at least one acceptance and more than three submissions; distinct = distinct seeds',
+            'refuses has no effect. Two multi cases in five (seed mod 5 < 2) are creation scripts: 1-2 senders, 2-3 rounds of a batch of 1-4 messages '
+            '-- call 45% / creation with init code 0x00 30% / 0xfe (fails) 10% / a constructor that stores a slot 15% at every position, at least one '
+            'creation in 85% -- followed by the re-delivery of every message alone, every proper suffix and prefix and a random sub-batch, in random '
+            'order; a creation counts as executed when it stands in an accepted transaction (cross-checked with the contract account at '
+            'CreateAddress(sender, nonce)); oracle as for all multi cases: at most once, only at the current sequence, sequence = n + k after an '
+            'accepted transaction. A quarter of the Ethereum transactions of the block histories are creations. One case in twelve (kind accountops, '
+            'from the mutation cases, same runner, explicit script): 2-3 accounts, a victim (sequence 0 in 60%) executes 2-4 transactions on random '
+            'routes (Ethereum single / pair, 20% creations; Cosmos direct / amino / EIP-712 ext / key signed over explicit sequences), then 1-3 rounds '
+            'of an account-type operation against the victim (MsgConvertIntoVestingAccount by another account through a direct / amino / EIP-712 '
+            'signed transaction, then merge or MsgConvertVestingAccount back), the re-delivery of EVERY old signed transaction of the victim in random '
+            'order and 1-2 fresh ones; oracle: no sequence ever decreases, a signed Cosmos / EIP-712 transaction executes at most once and only at the '
+            'sequence it was signed over, the Ethereum oracle as before. Non-trivial = at least one acceptance and more than three submissions; distinct = distinct seeds',
     'trusted_base': [
         'Coq 8.16.1 kernel incl. vm_compute (no native_compute)',
         'axioms: none (Print Assumptions: closed under the global context for every theorem of Props/C03.v)',
@@ -79,6 +100,9 @@ P = {
         'wrapped cases: cosmos-sdk x/authz MsgExec / keeper.SaveGrant and /repo testutil/tx PrepareCosmosTx / CreateEIP712CosmosTx build and sign the '
         'carriers; modelled by their verdict only: RejectMessagesDecorator, AuthzLimiterDecorator (disabled message types), the message type '
         'assertions of the Ethereum ante decorators, authz keeper DispatchActions',
+        'creations: the nonce rule of x/evm ApplyMessageWithConfig is transcribed (max(nonce before, m + 1), kept only when the EVM execution '
+        'succeeds); the EVM itself (whether a creation succeeds) enters as the recorded flag create_ok; account-type operations: x/vesting '
+        'ApplyVestingSchedule / ConvertVestingAccount are modelled by their effect on sequences only (none on the target)',
     ],
     'assumptions': [
         'ECDSA unforgeability and Keccak collision resistance (premises of the *_partial theorems only)',
